@@ -46,6 +46,17 @@ func (ce *cenv) wf(v cval) cval {
 	return v
 }
 
+// evalWithSides evaluates an expression (as part of a goal) and returns the well-formedness facts
+// separately, so that the caller can put them in front of the whole goal.
+func (ce *cenv) evalWithSides(x *CExpr) (cval, Term) {
+	var sides []Term
+	ce.sides = &sides
+	ce.asGoal = true
+	r := ce.eval(x)
+	ce.sides = nil
+	return r, And(sides...)
+}
+
 // evalTop evaluates a clause; asGoal says whether it is to be proved (facts weaken it) or assumed.
 func (ce *cenv) evalTop(x *CExpr, asGoal bool) cval {
 	var sides []Term
